@@ -1,4 +1,5 @@
 import Sozu.H1Body.Model
+import Sozu.H1Body.Writer
 import Sozu.H2Flow.Lemmas
 /-
 Helper lemmas for C01: hexadecimal sizes, the decoder on a well-formed
@@ -248,5 +249,82 @@ theorem rFeed_append (s : RState) (a b : Bytes) :
   have h := rFeed_acc b (rFeed s a).1 (rFeed s a).2
   simp only [rFeed, List.foldl_append] at h ⊢
   exact h
+
+/-! ### the writer: frames are never interleaved -/
+
+/-- the socket has seen a prefix of the concatenation of the frames started so
+    far, and the parked rest completes the last one -/
+def WrInv (w : Wr) : Prop := w.out ++ w.cur = w.hist.flatten
+
+theorem drain_spec : ∀ (q : List (List Tok)) (n : Nat),
+    (drain n q).2.1 ++ (drain n q).2.2.1 = (drain n q).2.2.2.2.flatten ∧
+    (drain n q).2.2.2.2 ++ (drain n q).2.2.2.1 = q := by
+  intro q
+  induction q with
+  | nil => intro n; simp [drain]
+  | cons f fs ih =>
+    intro n
+    unfold drain
+    split
+    · obtain ⟨h1, h2⟩ := ih (n - f.length)
+      refine ⟨?_, ?_⟩
+      · simp only [List.flatten_cons, List.append_assoc, h1]
+      · simp only [List.cons_append, h2]
+    · simp
+
+theorem resume_inv (w : Wr) (n : Nat) (h : WrInv w) : WrInv (resume w n).1 := by
+  unfold WrInv resume at *
+  simp only [List.append_assoc, List.take_append_drop]
+  exact h
+
+theorem startData_inv (w : Wr) (n : Nat) (h : WrInv w) (hc : w.cur = []) : WrInv (startData w n) := by
+  unfold WrInv startData at *
+  rw [hc, List.append_nil] at h
+  simp only [List.flatten_append, List.append_assoc, (drain_spec w.data n).1, h]
+
+theorem streams_inv (w : Wr) (n : Nat) (h : WrInv w) : WrInv (streams w n) := by
+  unfold streams
+  split
+  · next he => exact startData_inv _ _ (resume_inv w n h) (List.isEmpty_iff.mp he)
+  · exact resume_inv w n h
+
+theorem startCtrl_inv (w : Wr) (n : Nat) (h : WrInv w) (hc : w.cur = []) : WrInv (startCtrl w n).1 := by
+  unfold WrInv startCtrl at *
+  rw [hc, List.append_nil] at h
+  simp only [hc, List.append_nil, List.flatten_append, List.append_assoc, (drain_spec w.ctrl n).1, h]
+
+theorem afterZero_inv (w : Wr) (n : Nat) (h : WrInv w) : WrInv (afterZero true w n) := by
+  unfold afterZero
+  split
+  · next hg =>
+    have hc : w.cur = [] := by
+      simp only [Bool.not_true, Bool.or_false, Bool.and_eq_true] at hg
+      exact List.isEmpty_iff.mp hg.2
+    split
+    · exact startCtrl_inv w n h hc
+    · exact streams_inv _ _ (startCtrl_inv w n h hc)
+  · exact streams_inv w n h
+
+theorem writable_inv (w : Wr) (n : Nat) (h : WrInv w) : WrInv (writable true w n) := by
+  unfold writable
+  split
+  · split
+    · apply afterZero_inv
+      have := resume_inv w n h
+      unfold WrInv at *
+      exact this
+    · exact resume_inv w n h
+  · exact afterZero_inv w n h
+
+theorem wstep_inv (w : Wr) (op : WOp) (h : WrInv w) : WrInv (wstep true w op) := by
+  cases op with
+  | queueCtrl f => exact h
+  | queueData f => exact h
+  | writable n => exact writable_inv w n h
+
+theorem wrun_inv (ops : List WOp) : ∀ w : Wr, WrInv w → WrInv (wrun true w ops) := by
+  induction ops with
+  | nil => intro w h; exact h
+  | cons o os ih => intro w h; exact ih _ (wstep_inv w o h)
 
 end Sozu.H1Body
